@@ -62,3 +62,154 @@ def provenance(M: Model, it: ast.expr, limit: int = 60):
                     elif isinstance(y, ast.AugAssign) and isinstance(y.target, ast.Name) and y.target.id == x.id:
                         work.append(y.value)
     return names, reads
+
+
+# =========================================================================== candidates indexed by top-level package
+
+
+def _root_key(body: ast.AST, p: str) -> bool:
+    """`body` = the first dotted component of the name `p`: p.partition('.')[0] | p.split('.')[0] | p.split('.', 1)[0]"""
+    from .c17_model import const_str
+
+    if not (isinstance(body, ast.Subscript) and isinstance(body.slice, ast.Constant) and body.slice.value == 0 and isinstance(body.value, ast.Call) and isinstance(body.value.func, ast.Attribute)):
+        return False
+    c = body.value
+    recv = c.func.value
+    if not ((isinstance(recv, ast.Name) and recv.id == p) or (not p.isidentifier() and norm(recv, 300) == p)):
+        return False
+    if not c.args or const_str(c.args[0]) != "." or c.keywords:
+        return False
+    if c.func.attr == "partition" and len(c.args) == 1:
+        return True
+    if c.func.attr == "split" and (len(c.args) == 1 or (len(c.args) == 2 and isinstance(c.args[1], ast.Constant) and c.args[1].value == 1)):
+        return True
+    return False
+
+
+def _root_key_expr(M: Model, body: ast.AST, p: str) -> bool:
+    """the first component of `p`, spelled out or through a repo helper `def root(m): return m.partition('.')[0]`"""
+    if _root_key(body, p):
+        return True
+    if isinstance(body, ast.Call) and len(body.args) == 1 and not body.keywords and isinstance(body.args[0], ast.Name) and body.args[0].id == p and isinstance(body.func, (ast.Name, ast.Attribute)):
+        lam = _as_lambda(M, body.func)
+        return lam is not None and _root_key(lam.body, lam.args.args[0].arg)
+    return False
+
+
+def _as_lambda(M: Model, key: ast.expr | None):
+    from .c17_labels import _function_as_lambda
+
+    if isinstance(key, ast.Lambda) and len(key.args.args) == 1 and not key.args.defaults:
+        return key
+    if isinstance(key, (ast.Name, ast.Attribute)):
+        return _function_as_lambda(M, key)
+    return None
+
+
+def indexed_candidates(M: Model, e: ast.expr, n: str, domain_order):
+    """resolved `e` = `INDEX.get(root(n), [])` / `INDEX[root(n)]` where INDEX maps the top-level package to the aliased modules below it,
+    built from `itertools.groupby(SEQ, key=root)`.   -> (domain, order) | None (not this shape)
+
+    Every aliased ancestor-or-self of a module shares its top-level package, so restricting the candidates to the module's package loses
+    nothing - *if the groups are complete*.  `groupby` only groups consecutive runs: when SEQ is not sorted by the grouping key a package
+    comes in several runs, and a dict that stores (`INDEX[k] = list(run)`) keeps the last run only.  Then aliased modules are missing
+    from the candidates: domain 'lossy:...' (a VIOLATION of C17.R2).  Runs that are accumulated (`setdefault(k, []).extend(run)`) are
+    re-united and keep the order of SEQ."""
+    key = dflt = None
+    if isinstance(e, ast.Call) and isinstance(e.func, ast.Attribute) and e.func.attr == "get" and isinstance(e.func.value, ast.Name) and 1 <= len(e.args) <= 2 and not e.keywords:
+        idx, key = e.func.value.id, e.args[0]
+        dflt = e.args[1] if len(e.args) == 2 else None
+        if dflt is not None and not (isinstance(dflt, (ast.List, ast.Tuple)) and not dflt.elts):
+            return None
+    elif isinstance(e, ast.Subscript) and isinstance(e.value, ast.Name) and isinstance(e.ctx, ast.Load) and not isinstance(e.slice, ast.Slice):
+        idx, key = e.value.id, e.slice
+    else:
+        return None
+    bs = M.binds.get(idx, [])
+    if len(bs) != 1 or bs[0].kind != "assign" or bs[0].value is None:
+        return None
+    init = bs[0].value
+    empty = (isinstance(init, ast.Dict) and not init.keys) or (isinstance(init, ast.Call) and isinstance(init.func, ast.Name) and init.func.id in ("dict", "defaultdict") and not init.keywords and all(isinstance(a, ast.Name) and a.id in ("list",) for a in init.args))
+    if not empty:
+        return None
+    if not _root_key(M.resolve(key), n):
+        return None
+    # how the index is filled
+    fills = []
+    for x in _walk_own(M.fn.body):
+        if isinstance(x, ast.Subscript) and isinstance(x.value, ast.Name) and x.value.id == idx and isinstance(x.ctx, (ast.Store, ast.Del)):
+            st = M.stmt_of(x)
+            if isinstance(x.ctx, ast.Del) or not (isinstance(st, ast.Assign) and len(st.targets) == 1 and st.targets[0] is x):
+                return None
+            fills.append(("store", x.slice, st.value, st))
+        elif isinstance(x, ast.Call) and isinstance(x.func, ast.Attribute) and x.func.attr in ("extend",) and len(x.args) == 1:
+            recv = x.func.value
+            if isinstance(recv, ast.Call) and isinstance(recv.func, ast.Attribute) and recv.func.attr == "setdefault" and isinstance(recv.func.value, ast.Name) and recv.func.value.id == idx and len(recv.args) == 2:
+                fills.append(("accumulate", recv.args[0], x.args[0], M.stmt_of(x)))
+            elif isinstance(recv, ast.Subscript) and isinstance(recv.value, ast.Name) and recv.value.id == idx:
+                fills.append(("accumulate", recv.slice, x.args[0], M.stmt_of(x)))
+        elif isinstance(x, ast.Call) and isinstance(x.func, ast.Attribute) and isinstance(x.func.value, ast.Name) and x.func.value.id == idx and x.func.attr not in ("get", "setdefault", "keys", "items", "values"):
+            return None
+    if len(fills) != 1:
+        return None
+    mode, k_expr, v_expr, st = fills[0]
+    loops = M.loops_around(st)
+    if not loops:
+        return None
+    L = loops[-1]
+    it = M.resolve(L.iter)
+    if not (isinstance(it, ast.Call) and ((isinstance(it.func, ast.Name) and it.func.id == "groupby") or (isinstance(it.func, ast.Attribute) and it.func.attr == "groupby")) and it.args):
+        return None
+    gkey = next((k.value for k in it.keywords if k.arg == "key"), it.args[1] if len(it.args) > 1 else None)
+    lam = _as_lambda(M, gkey)
+    if lam is None or not _root_key_expr(M, lam.body, lam.args.args[0].arg):
+        return None
+    if not (isinstance(L.target, (ast.Tuple, ast.List)) and len(L.target.elts) == 2 and all(isinstance(t, ast.Name) for t in L.target.elts)):
+        return None
+    kv, gv = L.target.elts[0].id, L.target.elts[1].id
+    if not (isinstance(k_expr, ast.Name) and k_expr.id == kv):
+        return None
+    v = v_expr
+    while isinstance(v, ast.Call) and isinstance(v.func, ast.Name) and v.func.id in ("list", "tuple") and len(v.args) == 1 and not v.keywords:
+        v = v.args[0]
+    if not (isinstance(v, ast.Name) and v.id == gv):
+        return None
+    seq = it.args[0]
+    # is the grouped sequence sorted by the grouping key?
+    inner, within = seq, None
+    s2 = seq
+    while isinstance(s2, ast.Call) and isinstance(s2.func, ast.Name) and s2.func.id in ("list", "tuple", "iter") and len(s2.args) == 1 and not s2.keywords:
+        s2 = s2.args[0]
+    by_key = False
+    if isinstance(s2, ast.Call) and isinstance(s2.func, ast.Name) and s2.func.id == "sorted" and len(s2.args) == 1:
+        kw = {k.arg: k.value for k in s2.keywords}
+        sl = _as_lambda(M, kw.get("key")) if set(kw) <= {"key", "reverse"} else None
+        if sl is not None:
+            p = sl.args.args[0].arg
+            if _root_key_expr(M, sl.body, p):
+                by_key, inner = True, s2.args[0]  # stable: the order inside a package is the order of the sorted sequence
+            elif isinstance(sl.body, ast.Tuple) and len(sl.body.elts) >= 2 and _root_key_expr(M, sl.body.elts[0], p) and "reverse" not in kw:
+                from .c17_labels import _sorted_order
+
+                rest = sl.body.elts[1] if len(sl.body.elts) == 2 else ast.Tuple(elts=sl.body.elts[1:], ctx=ast.Load())
+                lam2 = ast.Lambda(args=sl.args, body=rest)
+                by_key, inner = True, s2.args[0]
+                within = _sorted_order(M, [ast.keyword(arg="key", value=lam2)], False)
+    d, o = domain_order(M, M.resolve(inner), n)
+    if d != "keys":
+        return None
+    if within is not None:
+        o = within
+    if by_key or mode == "accumulate":
+        return "keys", o
+    # 'not sorted by the package' needs positive evidence: no sort at all, or a sort by the length / depth of the name
+    known_unsorted = M.keys_of_A(s2) is not None and not (isinstance(s2, ast.Call) and isinstance(s2.func, ast.Name) and s2.func.id == "sorted")
+    if isinstance(s2, ast.Call) and isinstance(s2.func, ast.Name) and s2.func.id == "sorted" and len(s2.args) == 1:
+        from .c17_labels import _spec_key
+
+        kw2 = {k.arg: k.value for k in s2.keywords}
+        if set(kw2) <= {"key", "reverse"} and _spec_key(M, kw2.get("key"), False) in ("spec", "negspec"):
+            known_unsorted = True
+    if not known_unsorted:
+        return None
+    return f"lossy:`{norm(st, 60)}` in `for {norm(L.target, 30)} in {norm(L.iter, 70)}`", o
